@@ -22,15 +22,36 @@ fn status_of(p: &PacketLifecycleStatus) -> Option<PStatus> {
 }
 
 impl Engine {
+    /// The whole packet table, fetched page by page with an explicit limit (so that a default or maximum
+    /// page size introduced by a refactor does not matter to the properties that merely *read* the table).
     pub fn query_ibc_queue(&self) -> Vec<(u64, String, String, u128, Option<PStatus>)> {
-        match self.ch.query::<IBCQueueResponse>(QueryMsg::IbcQueue { start_after: None, limit: None }) {
-            Ok(q) => q
-                .ibc_queue
-                .iter()
-                .map(|p| (p.sequence, p.receiver.clone(), p.amount.denom.clone(), p.amount.amount.u128(), status_of(&p.status)))
-                .collect(),
-            Err(_) => vec![],
+        let mut out = vec![];
+        let mut cursor: Option<u64> = None;
+        for _ in 0..10_000 {
+            match self.ch.query::<IBCQueueResponse>(QueryMsg::IbcQueue { start_after: cursor, limit: Some(50) }) {
+                Ok(q) if !q.ibc_queue.is_empty() => {
+                    cursor = q.ibc_queue.last().map(|p| p.sequence);
+                    out.extend(q.ibc_queue.iter().map(|p| (p.sequence, p.receiver.clone(), p.amount.denom.clone(), p.amount.amount.u128(), status_of(&p.status))));
+                }
+                _ => break,
+            }
         }
+        out
+    }
+
+    /// All batches, page by page (see `query_ibc_queue`).
+    pub fn query_all_batches(&self) -> Result<Vec<BatchResponse>, String> {
+        let mut out: Vec<BatchResponse> = vec![];
+        let mut cursor: Option<u64> = None;
+        for _ in 0..10_000 {
+            let page: BatchesResponse = self.ch.query(QueryMsg::Batches { start_after: cursor, limit: Some(50), status: None })?;
+            if page.batches.is_empty() {
+                break;
+            }
+            cursor = page.batches.last().map(|b| b.id);
+            out.extend(page.batches);
+        }
+        Ok(out)
     }
 
     fn batch_matches(b: &MBatch, r: &BatchResponse) -> bool {
@@ -144,8 +165,8 @@ impl Engine {
             self.chk(&["C03"], got == want, || format!("native recipient {acct} holds {got} LST vouchers, minted for it {want}"));
         }
         // ---- batches
-        let bs: BatchesResponse = match self.ch.query(QueryMsg::Batches { start_after: None, limit: None, status: None }) {
-            Ok(b) => b,
+        let bs: BatchesResponse = match self.query_all_batches() {
+            Ok(b) => BatchesResponse { batches: b },
             Err(e) => return self.chk(&["C16", "C06"], false, || format!("Batches query failed: {e}")),
         };
         let ids: Vec<u64> = bs.batches.iter().map(|b| b.id).collect();
@@ -197,7 +218,7 @@ impl Engine {
         let want: Vec<(u64, String, String, u128, Option<PStatus>)> =
             self.m.packets.values().map(|p| (p.seq, p.receiver.clone(), p.denom.clone(), p.amount, Some(p.status))).collect();
         self.chk(&["C07"], q == want, || format!("IbcQueue {:?}\n   model (from the IBC module's view) {:?}", q, want));
-        let rq: Result<IBCReplyQueueResponse, _> = self.ch.query(QueryMsg::IbcReplyQueue { start_after: None, limit: None });
+        let rq: Result<IBCReplyQueueResponse, _> = self.ch.query(QueryMsg::IbcReplyQueue { start_after: None, limit: Some(50) });
         self.chk(&["C07"], rq.as_ref().map(|r| r.ibc_queue.is_empty()).unwrap_or(false), || format!("IbcReplyQueue not empty between transactions: {:?}", rq));
         // ---- config
         let cfg: ConfigResponse = match self.ch.query(QueryMsg::Config {}) {
